@@ -225,7 +225,7 @@ def run_case(ctx, rng, ci):
                         continue
                     if name == "bsrel" and source != "cdf":
                         continue
-                    if not (vutil.close_text_number(txt, want, 6) or vutil.num_equal(float(txt), want, 2e-5, 1e-9)):
+                    if not (vutil.close_text_number(txt, want, 6) or vutil.num_equal(float(txt), want, 2e-5, 1e-9 if source == "cdf" else 2e-6)):
                         ctx.violation("csv-definition|%s" % name, "verif <files> %s row %d col %d: %s, definition %r" % (" ".join(argv), i, k, txt, want), case)
     # quantile metrics
     qsrc = "ensemble" if source == "ensemble" else "cdf"
